@@ -100,7 +100,7 @@ Definition eval_leaf (env : sw_env) (t : optype) : bool :=
   | OTBool _ _ => false
   end.
 
-Definition leaf_width (t : optype) : N :=
+Definition leaf_width (t : optype) : nat :=
   match t with
   | OTInput _ | OTHistInput _ _ | OTLayer _ | OTBaseLayer _ => 2
   | _ => 1
@@ -112,33 +112,34 @@ Definition sc_leaf (r : bool) (o : bop) : bool := match o with BOr => r | _ => n
 (* short-circuit test when a finished nested list is popped: (true, Or | Not) | (false, And) *)
 Definition sc_pop (r : bool) (o : bop) : bool := match o with BAnd => negb r | _ => r end.
 (* final unwinding: one flip per pending Not *)
-Definition unwind (st : list (bop * N)) (r : bool) : bool :=
+Definition unwind (st : list (bop * nat)) (r : bool) : bool :=
   fold_left (fun r fr => neg_if_not (fst fr) r) st r.
 
-(* evaluate_boolean.  [st] head = top of the stack.  One loop iteration per fuel unit. *)
+(* evaluate_boolean.  [st] head = top of the stack.  One loop iteration per fuel unit.
+   Indices are usize in the Rust; nat here (they are bounded by the opcode length <= 4095). *)
 Fixpoint eval_loop (fuel : nat) (code : list N) (env : sw_env)
-         (ret : bool) (i endi : N) (op : bop) (st : list (bop * N)) : outcome bool :=
-  if i <? N.of_nat (length code) then
+         (ret : bool) (i endi : nat) (op : bop) (st : list (bop * nat)) : outcome bool :=
+  if Nat.ltb i (length code) then
     match fuel with
     | O => OutOfFuel
     | S f =>
-      if endi <=? i then
+      if Nat.leb endi i then
         match st with
         | [] => Ok ret                                        (* `None => break` *)
         | (o, e) :: st' =>
-          if sc_pop ret o || (e <=? i)
+          if sc_pop ret o || Nat.leb e i
           then eval_loop f code env (neg_if_not o ret) e e o st'
           else eval_loop f code env ret i e o st'
         end
       else
-        match nth_error code (N.to_nat i) with
+        match nth_error code i with
         | None => Panic "switch: index out of bounds"
         | Some v =>
-          ot <- opcode_type v (nth_error code (N.to_nat (i + 1))) ;;
+          ot <- opcode_type v (nth_error code (S i)) ;;
           match ot with
           | OTBool o2 e2 =>
               if Nat.ltb (length st) MAX_BOOL_EXPR_DEPTH
-              then eval_loop f code env ret (i + 1) e2 o2 ((op, endi) :: st)
+              then eval_loop f code env ret (S i) (N.to_nat e2) o2 ((op, endi) :: st)
               else Panic "exceeded boolean op depth"
           | leaf =>
               let r := neg_if_not op (eval_leaf env leaf) in
@@ -150,7 +151,7 @@ Fixpoint eval_loop (fuel : nat) (code : list N) (env : sw_env)
   else Ok (unwind st ret).
 
 Definition evaluate_boolean (code : list N) (env : sw_env) : outcome bool :=
-  eval_loop (2 * length code + 16) code env true 0 (N.of_nat (length code)) BOr [].
+  eval_loop (2 * length code + 16) code env true 0 (length code) BOr [].
 
 (* SwitchActions iterator, collected: the actions of the firing cases up to the first firing break *)
 Fixpoint switch_actions (cases : list (list N * action * bool)) (env : sw_env) : outcome (list action) :=
